@@ -755,7 +755,17 @@ func (cs *ContractSet) LoadFile(path, pkgPath string, isSpec bool) error {
 			case "inline":
 				cur.Inline = true
 			case "nobody":
+				// The body is not verified. In /repo this is only allowed for a contract that promises
+				// nothing (no ensures): callers then havoc whatever its frame allows, which is sound for
+				// any callee. Promises about unverified bodies belong in /verif/specs (trusted).
 				cur.NoBody = true
+				if !isSpec {
+					for _, c := range cur.Clauses {
+						if c.Kind == "ensures" {
+							return fail(fmt.Errorf("'nobody' contract must not have ensures clauses"))
+						}
+					}
+				}
 			case "maypanic":
 				cur.MayPanic = true
 			case "trusted":
@@ -777,6 +787,9 @@ func (cs *ContractSet) LoadFile(path, pkgPath string, isSpec bool) error {
 				}
 				if lab == "" {
 					lab = fmt.Sprintf("%s%d", w[:3], len(cur.Clauses))
+				}
+				if w == "ensures" && cur.NoBody && !isSpec {
+					return fail(fmt.Errorf("'nobody' contract must not have ensures clauses"))
 				}
 				cur.Clauses = append(cur.Clauses, &Clause{Kind: w, Label: lab, E: e, Text: body, Line: where})
 			case "let":
